@@ -20,6 +20,7 @@ pub mod c16;
 pub mod c17;
 pub mod c18;
 pub mod c19;
+pub mod c20;
 
 pub fn run(prop: &str, cfg: &Cfg, rep: &mut Report) -> bool {
     match prop {
@@ -42,6 +43,7 @@ pub fn run(prop: &str, cfg: &Cfg, rep: &mut Report) -> bool {
         "C17" => c17::run(cfg, rep),
         "C18" => c18::run(cfg, rep),
         "C19" => c19::run(cfg, rep),
+        "C20" => c20::run(cfg, rep),
         _ => return false,
     }
     true
